@@ -276,6 +276,8 @@ InvokeReturnDo(s) ==
 (*   i  its inner goroutine: invoker.Wait, default error, completion message *)
 (* The goroutines f and i of an invocation may outlive its answer.           *)
 
+\* pl: label of the event payload (k = the bytes of invocation k, 0 = empty); an event larger than the
+\* limit reaches the runtime cut at the limit (label -k)
 NewInv(c, pl) == [c |-> c, pl |-> pl, id |-> 0, m |-> "start", r |-> "off", f |-> "off", i |-> "off",
                   out |-> "", relRes |-> "", body |-> NoBody, derr |-> NoBody]
 
@@ -289,9 +291,9 @@ Release(s) ==
 
 \* observable: a caller enters Server.Invoke
 CallerStartEn(s, c) == s.busy[c] = 0
-CallerStartDo(s, c, pl) ==
+CallerStartDo(s, c, pl, big) ==
     LET k == s.ninv + 1 IN
-    [WithInv(s, k, NewInv(c, pl)) EXCEPT !.ninv = k, !.busy[c] = k]
+    [WithInv(s, k, NewInv(c, IF big THEN 0 - k ELSE pl)) EXCEPT !.ninv = k, !.busy[c] = k]
 
 \* main: initFailures channel not created yet -> ErrInitNotStarted; else start the release goroutine
 MainBeginEn(s, k) == s.iv[k].m = "start"
@@ -546,7 +548,7 @@ Forbidden(s, c) == Answer(s, c, Res(403, "InvalidStateTransition"))
 
 \* what the runtime receives when its poll is answered
 RenderRt(s) ==
-    CASE s.renderer = "invoke"   -> [NoRes EXCEPT !.status = 200, !.kind = "INVOKE", !.inv = s.rendInv,
+    CASE s.renderer = "invoke"   -> [NoRes EXCEPT !.status = 200, !.kind = "INVOKE", !.inv = s.rendInv, !.reason = "data-ok",
                                                   !.pl = IF s.rendSrc \in DOMAIN s.iv THEN s.iv[s.rendSrc].pl ELSE 0]
       [] s.renderer = "restore"  -> Res(200, "")
       [] s.renderer = "shutdown" -> Res(0, "")        \* the handler panics ("We should SIGTERM runtime"): connection closed
@@ -554,7 +556,8 @@ RenderRt(s) ==
 
 \* what an extension receives
 RenderAg(s) ==
-    CASE s.renderer = "invoke"   -> [NoRes EXCEPT !.status = 200, !.kind = "INVOKE", !.inv = s.rendInv]
+    \* "data-ok": ARN, deadline (arrival + timeout) and trace value are those of the invocation (harness projection)
+    CASE s.renderer = "invoke"   -> [NoRes EXCEPT !.status = 200, !.kind = "INVOKE", !.inv = s.rendInv, !.reason = "data-ok"]
       [] s.renderer = "shutdown" -> [NoRes EXCEPT !.status = 200, !.kind = "SHUTDOWN", !.reason = s.rendReason]
       [] s.renderer = "restore"  -> Res(200, "")
       [] OTHER                   -> Res(500, "InternalServerError")
